@@ -345,7 +345,19 @@ func genGov(rt *rapid.T, c *loopCase) {
 		}
 		sort.SliceStable(ch.Follow, func(i, j int) bool { return ch.Follow[i].At < ch.Follow[j].At })
 		c.Gov = append(c.Gov, ch)
+		if raise && gen.Chance(rt, "preburst", 1, 2) {
+			// threshold moves while the proposal is on its way (voting period + 2..3 blocks), so that a submission may
+			// be in flight at the moment the raise is committed
+			for st := ch.At + 2; st <= ch.At+16 && st < c.Steps; st += gen.Range(rt, "prestep", 1, 3) {
+				e := evt{At: st, Kind: "dev", Sig: gen.Uniform(rt, "presig", n)}
+				if gen.Chance(rt, "predir", 1, 2) {
+					e.Dir = -1
+				}
+				c.Events = append(c.Events, e)
+			}
+		}
 	}
+	sort.SliceStable(c.Events, func(i, j int) bool { return c.Events[i].At < c.Events[j].At })
 }
 
 // sanitize makes a hand-edited / replayed case executable and keeps it inside the stated preconditions.
